@@ -21,7 +21,11 @@ func runC07(c c07Case) (string, string, []bool) {
 			if got[i] {
 				kind = "spurious"
 			}
-			return "C07:" + kind, fmt.Sprintf("%+v stream %s: frame %d reported motion=%v, the thresholds say %v", c.Cfg, fmtStream(c.Frames), i+1, got[i], want[i]), got
+			extra := ""
+			if p := lastDetectPanic.Load(); p != nil && got[0] {
+				kind, extra = "panic", fmt.Sprintf(" (the detector panicked: %v)", p)
+			}
+			return "C07:" + kind, fmt.Sprintf("%+v stream %s: frame %d reported motion=%v, the thresholds say %v%s", c.Cfg, fmtStream(c.Frames), i+1, got[i], want[i], extra), got
 		}
 	}
 	return "", "", got
@@ -88,7 +92,7 @@ func c07Run(r *ev.Run) {
 		L1, L2 = 4, 4
 		alpha1 = c07Alpha
 	}
-	r.Rule = fmt.Sprintf("real detector (NewMotionDetector+Detect), fixed threshold T=%d, delta %d, FFC-free telemetry; value sweep: every sequence of %d frames with one varying interior pixel over %d boundary values (T-1,T,T+1,T+d,T+d+1,T+2d+2,0,1,65535) at every interior position, every sequence of %d frames with two varying pixels over 4 values for every pixel pair, and all-interior binary images, for resolutions 4x3/3x4/5x4 (edge 1) and 2x2/3x2 (edge 0), gap {1,2}, count-thresh {1,2,#interior}, warmer-only x one-diff; phase sweep: one beacon pixel, every binary sequence of length 2(gap+1)+3 for gap 1..4 with a camera reset at every position. Oracle: transcription of the statement. Non-trivial = stream with at least one motion frame.", c07T, c07Delta, L1, len(alpha1), L2)
+	r.Rule = fmt.Sprintf("real detector (NewMotionDetector+Detect), fixed threshold T=%d, delta %d, FFC-free telemetry; value sweep: every sequence of %d frames with one varying interior pixel over %d boundary values (T-1,T,T+1,T+d,T+d+1,T+2d+2,0,1,65535) at every interior position, every sequence of %d frames with two varying pixels over 4 values for every pixel pair, and all-interior binary images, for resolutions 4x3/3x4/5x4 (edge 1) and 2x2/3x2 (edge 0), gap {1,2}, count-thresh {1,2,#interior}, warmer-only x one-diff; bounds sweep: temp-thresh-min/max set (below, above, around T) with the fixed threshold; phase sweep: one beacon pixel, every binary sequence of length 2(gap+1)+3 for gap 1..4 with a camera reset at every position. Oracle: transcription of the statement. Non-trivial = stream with at least one motion frame.", c07T, c07Delta, L1, len(alpha1), L2)
 	r.Assumptions = []string{"pixel values outside the boundary alphabet and images larger than 5x4 are not enumerated"}
 	var jobs []c07Job
 	ress := []c07Res{{4, 3, 1}, {3, 4, 1}, {5, 4, 1}, {2, 2, 0}, {3, 2, 0}}
@@ -118,6 +122,15 @@ func c07Run(r *ev.Run) {
 			for _, warm := range []bool{false, true} {
 				cfg := DCfg{ResX: 3, ResY: 3, Edge: 1, T: c07T, Delta: c07Delta, Count: 1, Gap: gap, OneDiff: one, Warmer: warm}
 				jobs = append(jobs, c07Job{cfg: cfg, active: [][2]int{{1, 1}}, alpha: []uint16{c07T + 5, c07T + 5 + c07Delta + 1}, L: 2*(gap+1) + 3, resets: true})
+			}
+		}
+	}
+	// temp-thresh-min/max are meaningless with a fixed threshold but legal: they must not move it
+	for _, mm := range [][2]uint16{{c07T + 20, 0}, {0, c07T - 20}, {c07T - 30, c07T + 30}} {
+		for _, one := range []bool{true, false} {
+			cfg := DCfg{ResX: 4, ResY: 3, Edge: 1, T: c07T, Delta: c07Delta, Count: 1, Gap: 1, OneDiff: one, TMin: mm[0], TMax: mm[1]}
+			for _, p := range interiorPixels(cfg) {
+				jobs = append(jobs, c07Job{cfg: cfg, active: [][2]int{p}, alpha: []uint16{c07T - 25, c07T - 1, c07T, c07T + c07Delta + 1, c07T + 15, c07T + 25 + c07Delta + 1, c07T + 40}, L: 3})
 			}
 		}
 	}
